@@ -2127,6 +2127,12 @@ class ExpressionEvaluator(Parser):
                 condition = expr
                 false_result = rhs
                 expr = true_result if condition else false_result
+                # The result has the common type of both branches.
+                if isinstance(true_result, np.uint64) or isinstance(
+                    false_result,
+                    np.uint64,
+                ):
+                    expr = np.uint64(expr)
             else:
                 expr = self.__apply_binary_op(operator.token, expr, rhs)
 
